@@ -20,7 +20,9 @@
   check-then-register sequences (`Concurrent::select_impl`, `wait_for_signals`, waker registration in
   the virtual `select`) are exercised only by the schedule-exploring run (harness/src/bin/c13.rs).
 -/
+import YashModel.Generated.ProcConsts
 namespace YashModel.Proc
+open YashModel.Generated.ProcConsts (EXIT_SUCCESS EXIT_FAILURE EXIT_NOT_FOUND SIGNAL_EXIT_OFFSET)
 
 /-- `ProcessResult::{Exited, Signaled}` — the final state of a process -/
 inductive Result where
@@ -313,16 +315,22 @@ def awaitJobsRun (runFuel outer : Nat) (choices : Nat → List Nat) :
 
 /-! ### exit statuses -/
 
-/-- `ExitStatus::from(ProcessResult)`: exited → status, signaled → 128 + 256 + signal number -/
+/-- `ExitStatus::from(ProcessResult)`: exited → status, signaled → signal number + the offset of
+    `impl From<signal::Number> for ExitStatus` (`SIGNAL_EXIT_OFFSET` = 128 + 256, re-extracted from /repo) -/
 def Result.status : Result → Nat
   | .exited st => st
-  | .signaled sig => sig + 384
+  | .signaled sig => sig + SIGNAL_EXIT_OFFSET
+
+/-- `impl Exit for VirtualSystem::exit` (`ExitStatus(exit_status.0 & 0xFF)`, /repo ae6bc1e): of the status a process
+    passes to `exit` only the least significant 8 bits reach the parent (`WEXITSTATUS`); this is the status a child
+    that "exits with `st`" is recorded with (`Result.exited (exitStatusSeen st)`) -/
+def exitStatusSeen (st : Nat) : Nat := st % 256
 
 /-- exit status of `wait` for one operand: the job's status, or 127 (`ExitStatus::NOT_FOUND`) when
     the pid is not a known child (never was, or already waited for) -/
 def waitStatus : WaitRes → Nat
   | .got _ r => r.status
-  | .echild => 127
+  | .echild => EXIT_NOT_FOUND
 
 /-- `execute_multi_command_pipeline`: `final = SUCCESS; for each member { if !status.is_successful()
     || !pipefail { final = status } }` -/
@@ -330,6 +338,6 @@ def pipeStatus (pipefail : Bool) (sts : List Nat) : Nat :=
   sts.foldl (fun acc st => if st != 0 || !pipefail then st else acc) 0
 
 /-- `Pipeline::execute` with `negation` -/
-def negate (st : Nat) : Nat := if st = 0 then 1 else 0
+def negate (st : Nat) : Nat := if st = EXIT_SUCCESS then EXIT_FAILURE else EXIT_SUCCESS
 
 end YashModel.Proc
